@@ -183,6 +183,19 @@ UNITS = [
                'stubs = their proved contracts (units Header_nbAnalogs, Header_setNbAnalogs, Header_nbFrames, Header_setNbAnalogByFrame) '
                'restated over the abstract view (sub-frames, channels, samples exact?) so that no multiplier enters the formula',
                'SAMPLES_FIT: channels x sub-frames <= 65535 in every intermediate state (the 16-bit samples word; beyond it see finding C17)']),
+    U('c3d_updateHeader_rates', 'contracts/update_header.c', 'h_c3d_updateHeader', [], ['C19'], mode='bmc', defines=['VF_WIDE_RATES'], ub_by_function=True,
+      stubs={'Parameters__group__str': 'stubu_group', 'Group__parameter__str': 'stubu_parameter',
+             'Header__nbAnalogs__void': 'stubu_nbAnalogs', 'Header__nbAnalogs__sz': 'stubu_setNbAnalogs',
+             'Header__nbFrames': 'stubu_nbFrames', 'Header__nbAnalogByFrame__sz': 'stubu_setNbAnalogByFrame'},
+      unwind=8, timeout=900, level='PB', object_bits=12, sat='cvc5',
+      bound='complete symbolic execution (the updater has no loop of its own; literal copies unwound completely); header words '
+            'and the parameters they follow <= 65535 (16-bit header words); any finite non-negative rate up to 1e9 Hz: only the conversion checks are reported',
+      props={'memsafe': [], 'ub': ['C19'], 'post': []},
+      assumes=['plain symbolic execution of the real updateHeader; by-name accessors resolve the literals POINT/ANALOG/USED/RATE/FRAMES '
+               'to the mandatory entries (ghost directory, VALID_C3D); the multiplying / dividing header getters and setters are '
+               'stubs = their proved contracts (units Header_nbAnalogs, Header_setNbAnalogs, Header_nbFrames, Header_setNbAnalogByFrame) '
+               'restated over the abstract view (sub-frames, channels, samples exact?) so that no multiplier enters the formula',
+               'SAMPLES_FIT: channels x sub-frames <= 65535 in every intermediate state (the 16-bit samples word; beyond it see finding C17)']),
     U('c3d_parameter', 'contracts/c3dparameter.c', 'h_c3d_parameter', ['c3d__parameter/contract_c3d__parameter'],
       ['C09', 'C10', 'C05', 'C13', 'C18'],
       replace=['Parameters__groupIdx/contract_cp_Parameters__groupIdx', 'Group__ctor/contract_cp_Group__ctor',
